@@ -260,6 +260,17 @@ def oracle_file(case) -> list:
             rn = res.residue_name
             names = (["O4'", "C1'", "N9", "C4"] if rn in ("A", "G", "DA", "DG") else
                      ["O4'", "C1'", "N1", "C2"] if rn in ("C", "U", "T", "DC", "DT") else None)
+            if names is None:
+                # modified / unknown residue: if the table reports a chi at all it must be the glycosidic torsion
+                # of the atoms - defined by the nitrogen actually bonded to C1' (within 1.7 A); C-glycosides and
+                # residues without such a nitrogen are left alone
+                c1 = res.find_atom("C1'")
+                if c1 is not None:
+                    for nn, cc in (("N9", "C4"), ("N1", "C2")):
+                        na = res.find_atom(nn)
+                        if na is not None and float(np.linalg.norm(np.array(na.coordinates, dtype=float) - np.array(c1.coordinates, dtype=float))) <= 1.7:
+                            names = ["O4'", "C1'", nn, cc]
+                            break
             if names and val is not None and not (isinstance(val, float) and math.isnan(val)):
                 ats = [res.find_atom(n) for n in names]
                 if all(a is not None for a in ats):
